@@ -24,6 +24,9 @@ impl<C> IntoMsg<C> for SubMsg<Empty> {
             CosmosMsg::Any(any) => CosmosMsg::Any(any),
             #[cfg(feature = "stargate")]
             CosmosMsg::Gov(msg) => CosmosMsg::Gov(msg),
+            #[cfg(feature = "stargate")]
+            #[allow(deprecated)]
+            CosmosMsg::Stargate { type_url, value } => CosmosMsg::Stargate { type_url, value },
             _ => return Err(StdError::generic_err(format!(
                 "Unknown message variant: {:?}. Please make sure you are using up-to-date Sylvia version, and if so please issue this bug on the Sylvia repository.",
                 self
